@@ -42,6 +42,7 @@ type Contract struct {
 	Requires []*Clause
 	Ensures  []*Clause
 	Pure     bool
+	Opaque   bool
 	Inline   bool
 	Trusted  bool
 	Assigns  []string
@@ -88,7 +89,7 @@ type ContractSet struct {
 }
 
 var clauseKeywords = map[string]bool{
-	"func": true, "props": true, "requires": true, "ensures": true, "pure": true, "inline": true,
+	"func": true, "props": true, "requires": true, "ensures": true, "pure": true, "opaque": true, "inline": true,
 	"trusted": true, "assigns": true, "loop": true, "maprange": true, "panics": true, "at": true,
 	"pred": true, "ghost": true, "lemma": true, "typeinv": true, "axiom": true, "valueptr": true,
 	"note": true, "end": true,
@@ -229,6 +230,8 @@ func (cs *ContractSet) parseFile(pkg, file, text string) error {
 			cur.Ensures = append(cur.Ensures, mk("ensures"))
 		case "pure":
 			cur.Pure = true
+		case "opaque":
+			cur.Opaque = true
 		case "inline":
 			cur.Inline = true
 		case "trusted":
